@@ -77,3 +77,12 @@ pub fn point(f: u8, xh: u64, xl: u64, yh: u64, yl: u64, rh: u64, rl: u64, rel: u
     assert!(err.ule(tol));
     reached();
 }
+
+/// exact point: f(x) == (wh, wl) numerically for a concrete x; mode 0 = literal constants (the symbolic
+/// executor folds early-return paths), mode 1 = operand words pinned by assumption
+pub fn exact_point(f: u8, xh: f64, xl: f64, yh: f64, yl: f64, wh: f64, wl: f64, mode: u8) {
+    let (x, y) = if mode == 0 { (tf(xh, xl), tf(yh, yl)) } else { (gtf(xh, xl), gtf(yh, yl)) };
+    let r = apply(f, x, y);
+    assert!(r.hi() == wh && r.lo() == wl);
+    reached();
+}
